@@ -71,6 +71,16 @@ class Refine(T):
         return 'Refine(%r | %s%s)' % (self.term, '' if self.pol else 'not ', norm(self.test))
 
 
+class Tagged(T):
+    """a sub-term whose extent is marked as group `tag`"""
+
+    def __init__(self, term, tag):
+        self.term, self.tag = term, tag
+
+    def __repr__(self):
+        return 'Tagged(%s: %r)' % (self.tag, self.term)
+
+
 class RStrip(T):
     def __init__(self, term, chars):
         self.term, self.chars = term, chars
@@ -991,7 +1001,7 @@ class TBuilder:
         return end
 
     def tagged(self, cur, tag, inner, in_repeat):
-        if tag is not None and not in_repeat:
+        if tag is not None and not in_repeat and ('open', tag) in self.markers:
             if tag in self.used:
                 raise AnalysisError('slot %s occurs twice in the template' % tag)
             self.used.add(tag)
@@ -1030,6 +1040,8 @@ class TBuilder:
             e = self.term(t.item, loop, True)
             self.eps[e].append(loop)
             return loop
+        if isinstance(t, Tagged):
+            return self.tagged(cur, t.tag, lambda c: self.term(t.term, c, in_repeat), in_repeat)
         if isinstance(t, Refine):
             base = TBuilder(self.alpha, [], self.slot_lang, {}).lang(t.term)
             pl = pred_lang(t.test, t.var, self.alpha)
@@ -1128,7 +1140,7 @@ def slots_of(term, out=None):
             slots_of(x, out)
     elif isinstance(term, Star):
         slots_of(term.item, out)
-    elif isinstance(term, (Refine, RStrip)):
+    elif isinstance(term, (Refine, RStrip, Tagged)):
         slots_of(term.term, out)
     elif isinstance(term, Join):
         slots_of(term.sep, out)
@@ -1151,6 +1163,8 @@ def show(term):
         return '[%s | %s%s]' % (show(term.term), '' if term.pol else 'not ', norm(term.test))
     if isinstance(term, RStrip):
         return 'rstrip(%s, %r)' % (show(term.term), term.chars)
+    if isinstance(term, Tagged):
+        return '<%s: %s>' % (term.tag, show(term.term))
     if isinstance(term, Join):
         return 'join(%s; %s)' % (show(term.sep), show(term.item))
     return repr(term)
